@@ -24,12 +24,21 @@ def m_eq(ex, callee, args, ret_ty, frame):
 VAL_CFG = dict(
     inline=[r"^CelValue::error_prop_or", r"^CelValue::(index|in_|is_err|from_err|from_bool|true_|false_)$", r"^CelError::\w+$", r"<CelValue as From<(bool|CelError)>>::from"],
     opaque_types=("HashMap", "String", "CelBytes", "DateTime", "Duration", "Arc", "CelByteCode"),
-    models=[(r"^<CelValue as PartialEq>::eq$", m_eq), (r"^HashMap(::)?(<.*>)?::get(::<.*>)?$", lambda ex, c, a, r, f: __import__("t_vm").m_map_get(ex, c, a, r, f))],
+    models=[(r"^<CelValue as PartialEq>::eq$", m_eq), (r"^HashMap(::)?(<.*>)?::contains_key", lambda ex, c, a, r, f: m_contains_key(ex, c, a, r, f)), (r"^HashMap(::)?(<.*>)?::get(::<.*>)?$", lambda ex, c, a, r, f: __import__("t_vm").m_map_get(ex, c, a, r, f))],
     inline_default=True,
     keep_uninterpreted=[r"^<CelValue as ", r"^CelValue::(as_type|ord|eq)$"],
     seq_bound=LIST_BOUND,
     loop_bound=LIST_BOUND + 3,
 )
+
+
+def m_contains_key(ex, callee, args, ret_ty, frame):
+    mv = models.deref(ex, args[0])
+    key = ("haskey", getattr(mv, "vid", None), vid_of(ex, args[1]))
+    if key not in ex.lazy:
+        ex.lazy[key] = z3.Bool(f"haskey@{key[1]}@{key[2]}")
+    ex.used["modelled"].add("HashMap::contains_key (arbitrary but fixed per map and key)")
+    return VBool(ex.lazy[key])
 
 
 def args_index(ex, func):
@@ -130,6 +139,12 @@ def value_scenario(ex, kind):
                 return {"unavailable": f"index kind {ik} has no concrete stand-in"}
             return {"kind": "value", "request": {"instrs": [{"op": "Push", "val": {"List": items}}, {"op": "Push", "val": iv}, {"op": "Index"}], "resolve": True}, "expected": exp}
         lhs, rhs = ex.notes["lhs"], ex.notes["rhs"]
+        if variant(rhs) == "Map" and variant(lhs) in ("Int", "Bool", "Null", "UInt"):
+            lv = {"Int": {"Int": 5}, "UInt": {"UInt": 5}, "Bool": {"Bool": True}, "Null": {"Null": None}}[variant(lhs)]
+            return {"kind": "value", "request": {"instrs": [{"op": "Push", "val": lv}, {"op": "Push", "val": {"Map": {"a": {"Int": 1}}}}, {"op": "In"}], "resolve": True}, "expected": {"anyerr": True}}
+        if variant(rhs) in ("Int", "Bool", "Null", "UInt") and variant(lhs) in ("Int", "Bool", "Null", "UInt"):
+            mk = lambda k: {"Int": {"Int": 5}, "UInt": {"UInt": 5}, "Bool": {"Bool": True}, "Null": {"Null": None}}[k]
+            return {"kind": "value", "request": {"instrs": [{"op": "Push", "val": mk(variant(lhs))}, {"op": "Push", "val": mk(variant(rhs))}, {"op": "In"}], "resolve": True}, "expected": {"anyerr": True}}
         if variant(rhs) != "List" or variant(lhs) in ("Err", "Ident"):
             return {"unavailable": "operands without a concrete stand-in"}
         seq = payload(ex, rhs, "List")
@@ -190,8 +205,19 @@ def ref_in(A, ex):
         return ("same", lhs.vid)
     if A.ask(is_variant(ex, rhs, "Err")):
         return ("same", rhs.vid)
+    if A.ask(is_variant(ex, rhs, "Map")):
+        # key presence for string keys; any other left operand is an error
+        if not A.ask(is_variant(ex, lhs, "String")):
+            return ("anyerr",)
+        mv = payload(ex, rhs, "Map")
+        key = ("haskey", getattr(mv, "vid", None), vid_of(ex, payload(ex, lhs, "String")))
+        if key not in ex.lazy:
+            ex.lazy[key] = z3.Bool(f"haskey@{key[1]}@{key[2]}")
+        return ("bool", ex.lazy[key])
     if not A.ask(is_variant(ex, rhs, "List")):
-        return ("outside",)
+        if A.ask(is_variant(ex, rhs, "String")):
+            return ("outside",)  # substring search is std's
+        return ("anyerr",)  # "an error for other operand types"
     seq = payload(ex, rhs, "List")
     n = None
     for k in range(LIST_BOUND + 1):
@@ -306,6 +332,6 @@ TARGETS = [
          what="l.size() for lists of 0..=3 elements: the element count (through the generated dispatcher)",
          bounds={"list_len": f"0..={LIST_BOUND}"}),
     dict(name="val_in_list", props=["C06", "C01"], func="in_", self_ty="CelValue", cfg=VAL_CFG, make_args=args_in, check=check_value(ref_in, "in"),
-         what="x in l for lists of 0..=3 elements: true iff some element equals x (equality uninterpreted); failing operands propagate",
+         what="x in l for lists of 0..=3 elements: true iff some element equals x (equality uninterpreted); x in m: key presence for string keys, an error for other keys; an error for other right operands; failing operands propagate",
          bounds={"list_len": f"0..={LIST_BOUND}"}),
 ]
